@@ -147,6 +147,8 @@ fn show(t: &Ty, v: &V) -> String {
         (Ty::Res(x, _), V::Ok(y)) => format!("ok({})", show(x, y)),
         (Ty::Res(_, e), V::Err(y)) => format!("err({})", show(e, y)),
         (Ty::Arr(x), V::Arr(ys)) => format!("[ {} ]", ys.iter().map(|y| show(x, y)).collect::<Vec<_>>().join(", ")),
+        // wider than the prelude can print: the program prints the components one per line
+        (Ty::Tup(xs), V::Tup(ys)) if xs.len() > 4 => xs.iter().zip(ys).map(|(x, y)| show(x, y)).collect::<Vec<_>>().join("\n"),
         (Ty::Tup(xs), V::Tup(ys)) => format!("({})", xs.iter().zip(ys).map(|(x, y)| show(x, y)).collect::<Vec<_>>().join(", ")),
         (Ty::Named(name), V::Tup(ys)) => {
             let d = struct_def(name).unwrap();
@@ -300,6 +302,67 @@ fn child_crate_dir() -> Result<std::path::PathBuf, String> {
     Ok(dir)
 }
 
+/// Do the generated bindings compile when embedded like /repo/e2e_tests/test_host_funcs does, for a host file
+/// with `use m as p` and for two #host types of one name in two modules?  Recorded as known-finding ids (the
+/// disposition is the coordinator's), never silently: a probe that cannot run is a note.
+fn probe_stage(ctx: &mut Ctx, gen_dir: &std::path::Path) {
+    let Some(harness) = gen_dir.parent() else { return };
+    let manifest = std::path::Path::new(env!("CARGO_MANIFEST_DIR"));
+    let real = match std::fs::canonicalize(manifest.join("src")) {
+        Ok(s) => s.parent().unwrap().join("c36probe"),
+        Err(_) => return,
+    };
+    let repo = std::env::var("VERIF_REPO").unwrap_or_else(|_| "/repo".into());
+    let repo = repo.trim_end_matches('/').to_string();
+    let dir = if repo == "/repo" {
+        real
+    } else {
+        let alt = harness.join("c36probe");
+        let copy = |rel: &str| -> Option<()> {
+            let text = std::fs::read_to_string(real.join(rel)).ok()?.replace("/repo/", &format!("{repo}/"));
+            let dst = alt.join(rel);
+            std::fs::create_dir_all(dst.parent()?).ok()?;
+            std::fs::write(dst, text).ok()
+        };
+        for f in ["Cargo.toml", "build.rs", "src/main.rs", "abra_alias/a.abra", "abra_alias/host.abra", "abra_same/a.abra", "abra_same/b.abra", "abra_same/host.abra"] {
+            if copy(f).is_none() {
+                ctx.notes.push("probe stage: cannot copy the probe crate".into());
+                return;
+            }
+        }
+        alt
+    };
+    let _ = std::fs::copy(format!("{repo}/Cargo.lock"), dir.join("Cargo.lock"));
+    for (feature, id, what) in [
+        ("alias", "C36-alias-reexport-private-root", "host file with `use a as pa`: generated `pub use crate::a as pa;`"),
+        ("same", "C36-same-name-host-types", "two #host types named Item in modules a and b: generated code names both `Item`"),
+    ] {
+        let o = std::process::Command::new("cargo")
+            .args(["build", "--offline", "--quiet", "--features", feature])
+            .current_dir(&dir)
+            .env("CARGO_TARGET_DIR", gen_dir.join("target"))
+            .env_remove("RUSTFLAGS")
+            .output();
+        match o {
+            Err(e) => ctx.notes.push(format!("probe {feature} did not run: {e}")),
+            Ok(o) if o.status.success() => {
+                ctx.count(&format!("probe:{feature}:generated-bindings-compile"));
+            }
+            Ok(o) => {
+                let err = String::from_utf8_lossy(&o.stderr).to_string();
+                if err.contains("generate_host_function_enum failed") || err.contains("panicked") {
+                    ctx.spec_fail(format!("probe {feature}: the generator itself fails ({what}): {}", err.lines().filter(|l| l.contains("panicked") || l.contains("failed")).take(2).collect::<Vec<_>>().join(" | ")));
+                } else {
+                    let first = err.lines().find(|l| l.starts_with("error")).unwrap_or("error").to_string();
+                    ctx.count(&format!("probe:{feature}:generated-bindings-do-not-compile"));
+                    ctx.notes.push(format!("probe {feature} ({what}): generated bindings do not compile in the e2e embedding: {first}"));
+                    ctx.known_findings.push(id.to_string());
+                }
+            }
+        }
+    }
+}
+
 struct Case {
     k: usize,
     args: Vec<V>,
@@ -318,7 +381,7 @@ fn main() {
             let args: Vec<V> = sig.params.iter().map(|t| gen_v(t, &mut ctx.rng, 0, true, edge)).collect();
             let edge_ret = ctx.rng.chance(2, 5);
             let ret = gen_v(&sig.ret, &mut ctx.rng, 0, false, edge_ret);
-            let mut p = String::from("use sigs\n");
+            let mut p = program_header();
             let mut names = vec![];
             for (j, (t, v)) in sig.params.iter().zip(&args).enumerate() {
                 if *t == Ty::Unit {
@@ -352,6 +415,14 @@ fn main() {
             });
             if sig.ret == Ty::Unit {
                 p.push_str(&format!("{callee}({})\nprintln(nil)\n", names.join(", ")));
+            } else if matches!(&sig.ret, Ty::Tup(xs) if xs.len() > 4) {
+                let Ty::Tup(xs) = &sig.ret else { unreachable!() };
+                let rs: Vec<String> = (0..xs.len()).map(|j| format!("r{j}")).collect();
+                p.push_str(&format!("let ({}) = {callee}({})\n", rs.join(", "), names.join(", ")));
+                for r in &rs {
+                    p.push_str(&format!("println({r})\n"));
+                }
+                ctx.count("wide-tuple-result");
             } else {
                 p.push_str(&format!("let r = {callee}({})\nprintln(r)\n", names.join(", ")));
             }
@@ -391,6 +462,7 @@ fn main() {
         ctx.finish();
         return;
     }
+    probe_stage(&mut ctx, &dir);
     let exe = dir.join("target/debug/c36gen");
     let case_line = |i: usize| format!("{i}\t{}\t{}\t{}\n", cases[i].k, v_text(&cases[i].ret), hex(cases[i].program.as_bytes()));
     let mut answers: Vec<Option<String>> = vec![None; cases.len()];
